@@ -26,7 +26,9 @@ class MultiprocessingPoolWrapper:
         pass
 
     def map(self, func, it, chunksize=None):
-        return map(func, it)
+        # evaluate eagerly like multiprocessing.Pool does, so that
+        # the callers can not stop the processing early (e.g. via all())
+        return list(map(func, it))
 
     def imap_unordered(self, *args, **kwargs):
         """
